@@ -18,12 +18,12 @@ namespace MdsVerif.Proofs.Cache
 open MdsVerif.Model.Heapq hiding step clear set Op Out S
 open MdsVerif.Model.Cache
 
-/-- the class of heap configurations covered: index arithmetic that moves strictly up / down, and the
-pinned `pop` (no upward repair).  The pinned configuration is in the class (`pinned_ok`). -/
+/-- the class of heap configurations covered: index arithmetic that moves strictly up / down.  Nothing is
+assumed about `right`, `heapifyStart` or `popSiftsUp`: the class contains the pinned configuration
+(`pinned_ok`: `pop` without upward repair) as well as the repaired one (`pop` with the guarded sift-up). -/
 structure CfgOK (cfg : Cfg) : Prop where
   parent_lt : ∀ i, 0 < i → cfg.parent i < i
   left_gt : ∀ i, i < cfg.left i
-  noSiftUp : cfg.popSiftsUp = false
 
 /-! ## 1. the index -/
 
@@ -239,10 +239,13 @@ def moveLast (h : H Entry) (i : Nat) : H Entry :=
   let h2 := h1.report i
   { h2 with data := h2.data.take n }
 
-theorem pop_eq (cfg : Cfg) (lt : Entry → Entry → Bool) (h : H Entry) (i : Nat) (hn : h.len - 1 ≠ 0)
-    (hs : cfg.popSiftsUp = false) :
-    pop cfg lt h i = ((pushDown cfg lt (moveLast h i).len (moveLast h i) i).1, h.get i) := by
-  simp [pop, hn, hs, moveLast]
+theorem pop_eq (cfg : Cfg) (lt : Entry → Entry → Bool) (h : H Entry) (i : Nat) (hn : h.len - 1 ≠ 0) :
+    pop cfg lt h i =
+      (if cfg.popSiftsUp && ((pushDown cfg lt (moveLast h i).len (moveLast h i) i).2 = i && i < (moveLast h i).len)
+        then ((pushUp cfg lt (i + 1) (pushDown cfg lt (moveLast h i).len (moveLast h i) i).1 i).1, h.get i)
+        else ((pushDown cfg lt (moveLast h i).len (moveLast h i) i).1, h.get i)) := by
+  simp only [pop, hn, if_false, moveLast]
+  rfl
 
 theorem moveLast_data_getElem? (h : H Entry) {i : Nat} (hi : i < h.data.length) (p : Nat) :
     (moveLast h i).data[p]? =
@@ -362,9 +365,16 @@ theorem pop_spec {cfg : Cfg} (ok : CfgOK cfg) {m : Index} {h : H Entry} {i : Nat
       apply t.bwd k _ hx
       simpa [ha, hg] using hx
     · simp [ha, hg]
-  · rw [pop_eq cfg ltEntry h i hn ok.noSiftUp]
+  · rw [pop_eq cfg ltEntry h i hn]
     have := pushDown_spec ok ltEntry (moveLast h i).len (moveLast h i) i (moveLast_tr hi t)
-    exact ⟨rfl, this.1, (this.2.cons _).trans (moveLast_perm h hi)⟩
+    split
+    · rename_i hu
+      simp only [Bool.and_eq_true, decide_eq_true_eq] at hu
+      have hlt : i < (pushDown cfg ltEntry (moveLast h i).len (moveLast h i) i).1.data.length := by
+        rw [this.2.length_eq]; exact hu.2.2
+      have up := pushUp_spec ok ltEntry (i + 1) _ i this.1 hlt
+      exact ⟨rfl, up.1, ((up.2.1.trans this.2).cons _).trans (moveLast_perm h hi)⟩
+    · exact ⟨rfl, this.1, (this.2.cons _).trans (moveLast_perm h hi)⟩
 
 /-- **heap interface, `add`**: `add v` (for a new key) conserves the elements, keeps the index exact, and
 returns the offset of the new element. -/
@@ -903,6 +913,112 @@ theorem put_spec {cfg : Cfg} (ok : CfgOK cfg) {sizeOf : Nat → Int} (hs : ∀ v
   · exact ((perm.map kv).mem_iff).2 (List.mem_cons_self)
   · show c2.limit = c.limit
     rw [hlim2, hlim1]
+
+/-! ### `Put` evicts only while the new entry does not fit -/
+
+/-- `Σ sizeOf value` over a list of `(key, value)` pairs -/
+def sizeKV (sizeOf : Nat → Int) : List (Nat × Nat) → Int
+  | [] => 0
+  | e :: l => sizeOf e.2 + sizeKV sizeOf l
+
+/-- the `(key, value)` pairs the store hands out under `m` successive `Evict`s (fewer if it runs empty):
+the order in which the heap yields its entries -/
+def evictSeq (cfg : Cfg) : Nat → Lru → List (Nat × Nat)
+  | 0, _ => []
+  | m + 1, s =>
+    match s.evict cfg with
+    | .panic _ => []
+    | .ok (s', k, v) => (k, v) :: evictSeq cfg m s'
+
+/-- the eviction loop, structurally (every configuration, no invariant needed): what it reports is a prefix
+`gone` of the store's yield order; the running size is reduced by exactly the sizes of `gone`; and an
+`Evict` is executed only while the entry does not fit: before the `j`-th eviction (`j < gone.length`) the
+size still exceeded the limit. -/
+theorem evictLoop_needed (cfg : Cfg) (sizeOf : Nat → Int) :
+    ∀ (fuel : Nat) (c : Cache) (n : Int) (c' : Cache) (n' : Int),
+      evictLoop cfg sizeOf fuel c n = .ok (c', n') →
+      ∃ gone : List (Nat × Nat), c'.evicted = gone.reverse ++ c.evicted ∧ n' = n - sizeKV sizeOf gone ∧
+        gone = evictSeq cfg gone.length c.store ∧
+        (∀ j, j < gone.length → n - sizeKV sizeOf (gone.take j) > c.limit) := by
+  intro fuel
+  induction fuel with
+  | zero =>
+    intro c n c' n' h
+    simp only [evictLoop] at h
+    cases h
+    exact ⟨[], rfl, by simp [sizeKV], rfl, fun j hj => by simp at hj⟩
+  | succ fuel ih =>
+    intro c n c' n' h
+    by_cases hgt : n > c.limit
+    · simp only [evictLoop, hgt, if_true] at h
+      cases hev : c.store.evict cfg with
+      | panic m => rw [hev] at h; cases h
+      | ok r =>
+        obtain ⟨st, ek, ev⟩ := r
+        rw [hev] at h
+        obtain ⟨gone, h1, h2, h3, h4⟩ := ih _ _ _ _ h
+        refine ⟨(ek, ev) :: gone, ?_, ?_, ?_, ?_⟩
+        · rw [h1]; simp
+        · rw [h2]; simp only [sizeKV]; omega
+        · simp only [List.length_cons, evictSeq, hev]
+          exact congrArg _ h3
+        · intro j hj
+          cases j with
+          | zero => simpa [sizeKV] using hgt
+          | succ j =>
+            have := h4 j (by simpa using hj)
+            simp only [List.take_succ_cons, sizeKV]
+            have e : n - sizeOf ev - sizeKV sizeOf (gone.take j) = n - (sizeOf ev + sizeKV sizeOf (gone.take j)) := by
+              omega
+            rw [← e]; exact this
+    · simp only [evictLoop, hgt, if_false] at h
+      cases h
+      exact ⟨[], rfl, by simp [sizeKV], rfl, fun j hj => by simp at hj⟩
+
+/-- the entry a `Put k` replaces (reported first), if the key is present -/
+def replaced (c : Cache) (k : Nat) : List (Nat × Nat) :=
+  match c.store.check k with
+  | some old => [(k, old)]
+  | none => []
+
+theorem putReplace_acct (cfg : Cfg) (sizeOf : Nat → Int) (c : Cache) (k : Nat) :
+    (putReplace cfg sizeOf c k).evicted = replaced c k ++ c.evicted ∧
+    (putReplace cfg sizeOf c k).size = c.size - sizeKV sizeOf (replaced c k) ∧
+    (putReplace cfg sizeOf c k).limit = c.limit := by
+  unfold putReplace replaced
+  split
+  · refine ⟨rfl, ?_, rfl⟩
+    simp only [sizeKV]; omega
+  · refine ⟨rfl, ?_, rfl⟩
+    simp only [sizeKV]; omega
+
+/-- **`Put` evicts exactly as long as needed.**  For a `Put k v` that is not refused, with `c1` the state
+after the replace step: the new callbacks are `replaced` followed by `gone`, where `gone` is a prefix of the
+order in which the store yields its entries (`evictSeq`), every eviction was executed while
+`size + sizeOf v` still exceeded the limit, and after the last one it fits; the final size is exactly
+`c1.size + sizeOf v - Σ gone`.  So `gone.length` is the *least* number of entries, in the store's yield
+order, whose removal makes room; nothing is evicted when the new entry fits. -/
+theorem put_needed {cfg : Cfg} (ok : CfgOK cfg) {sizeOf : Nat → Int} (hs : ∀ v, 0 ≤ sizeOf v)
+    {c : Cache} (inv : Inv sizeOf c) (k v : Nat) (h : ¬ sizeOf v > c.limit) :
+    ∃ c' gone, put cfg sizeOf c k v = .ok (c', true) ∧
+      c'.evicted = gone.reverse ++ (putReplace cfg sizeOf c k).evicted ∧
+      gone = evictSeq cfg gone.length (putReplace cfg sizeOf c k).store ∧
+      (∀ j, j < gone.length →
+        (putReplace cfg sizeOf c k).size + sizeOf v - sizeKV sizeOf (gone.take j) > c.limit) ∧
+      (putReplace cfg sizeOf c k).size + sizeOf v - sizeKV sizeOf gone ≤ c.limit ∧
+      c'.size = (putReplace cfg sizeOf c k).size + sizeOf v - sizeKV sizeOf gone := by
+  obtain ⟨inv1, _, hk1, hlim1⟩ := putReplace_spec (cfg := cfg) ok hs inv k
+  obtain ⟨c2, n2, hl, inv2, _, hle2, hlim2, _, hkeys⟩ :=
+    evictLoop_spec ok (sizeOf := sizeOf) (sizeOf v) ((putReplace cfg sizeOf c k).store.h.len + 1)
+      (putReplace cfg sizeOf c k) ((putReplace cfg sizeOf c k).size + sizeOf v) inv1.toInv0
+      (by simp [H.len]) (by rw [inv1.size]) (by rw [hlim1]; omega)
+  obtain ⟨st, hst, _, _, _⟩ := store_spec ok inv2.lru v (hkeys k hk1)
+  obtain ⟨gone, g1, g2, g3, g4⟩ := evictLoop_needed cfg sizeOf _ _ _ _ _ hl
+  refine ⟨{ c2 with store := st, size := n2, count := c2.count + 1 }, gone, ?_, g1, g3, ?_, ?_, g2⟩
+  · rw [put_eq cfg sizeOf c k v h, hl]
+    simp only [hst]
+  · intro j hj; rw [← hlim1]; exact g4 j hj
+  · rw [← g2, ← hlim1, ← hlim2]; exact hle2
 
 theorem clearLoop_spec {cfg : Cfg} (ok : CfgOK cfg) {sizeOf : Nat → Int} (hs : ∀ v, 0 ≤ sizeOf v) :
     ∀ (fuel : Nat) (c : Cache), Inv sizeOf c → c.store.h.data.length < fuel →
@@ -1458,6 +1574,26 @@ structure HeapInv (cfg : Cfg) (P : H Entry → Prop) : Prop where
   add : ∀ h v, P h → (∀ e ∈ h.data, e.lastAccess < v.lastAccess) → P (add cfg ltEntry h v).1
   min : ∀ h, P h → minOK h = true
 
+/-- the part of `HeapInv` that histories without removal of an interior heap slot need: `pop` only at the
+root (`Evict`), `add` only of the newest element (`Store`) -/
+structure HeapInv0 (cfg : Cfg) (P : H Entry → Prop) : Prop where
+  nil : P { data := [] }
+  log : ∀ h l, P h → P { h with log := l }
+  pop0 : ∀ h, P h → 0 < h.data.length → P (pop cfg ltEntry h 0).1
+  add : ∀ h v, P h → (∀ e ∈ h.data, e.lastAccess < v.lastAccess) → P (add cfg ltEntry h v).1
+  min : ∀ h, P h → minOK h = true
+
+theorem HeapInv.to0 {cfg : Cfg} {P : H Entry → Prop} (hi : HeapInv cfg P) : HeapInv0 cfg P :=
+  ⟨hi.nil, hi.log, fun h hP h0 => hi.pop h 0 hP h0, hi.add, hi.min⟩
+
+/-- `HeapInv0` plus: `pop` at *every* valid offset keeps `P` as long as the heap holds at most `B` elements
+(`HeapInv` is the case "for every `B`") -/
+structure HeapInvB (cfg : Cfg) (P : H Entry → Prop) (B : Nat) : Prop extends HeapInv0 cfg P where
+  popB : ∀ h i, P h → i < h.data.length → h.data.length ≤ B → P (pop cfg ltEntry h i).1
+
+theorem HeapInv.toB {cfg : Cfg} {P : H Entry → Prop} (hi : HeapInv cfg P) (B : Nat) : HeapInvB cfg P B :=
+  { hi.to0 with popB := fun h i hP hlt _ => hi.pop h i hP hlt }
+
 theorem remove_h {cfg : Cfg} {s : Lru} {k p : Nat} (hg : s.present.get k = some p) (hp : p < s.h.data.length) :
     (s.remove cfg k).h = { (pop cfg ltEntry s.h p).1 with log := [] } := by
   have : ¬ p ≥ s.h.len := by simp [H.len]; exact hp
@@ -1489,23 +1625,23 @@ theorem access_h {cfg : Cfg} {s : Lru} {k p : Nat} (hg : s.present.get k = some 
 section heapinv
 variable {cfg : Cfg} {P : H Entry → Prop}
 
-theorem remove_P (hi : HeapInv cfg P) {s : Lru} (inv : LruInv s) (hP : P s.h) (k : Nat) :
-    P (s.remove cfg k).h := by
+theorem remove_P {B : Nat} (hi : HeapInvB cfg P B) {s : Lru} (inv : LruInv s) (hP : P s.h)
+    (hB : s.h.data.length ≤ B) (k : Nat) : P (s.remove cfg k).h := by
   by_cases hk : k ∈ s.h.data.map (·.key)
   · obtain ⟨e, he, rfl⟩ := List.mem_map.1 hk
     obtain ⟨p, hg, _, hlt⟩ := inv.get_of_mem he
     rw [remove_h hg hlt]
-    exact hi.log _ _ (hi.pop _ _ hP hlt)
+    exact hi.log _ _ (hi.popB _ _ hP hlt hB)
   · rw [remove_absent inv hk]; exact hP
 
-theorem access_P (ok : CfgOK cfg) (hi : HeapInv cfg P) {s : Lru} (inv : LruInv s) (hP : P s.h) (k : Nat) :
-    P (s.access cfg k).1.h := by
+theorem access_P {B : Nat} (ok : CfgOK cfg) (hi : HeapInvB cfg P B) {s : Lru} (inv : LruInv s) (hP : P s.h)
+    (hB : s.h.data.length ≤ B) (k : Nat) : P (s.access cfg k).1.h := by
   by_cases hk : k ∈ s.h.data.map (·.key)
   · obtain ⟨e, he, rfl⟩ := List.mem_map.1 hk
     obtain ⟨p, hg, hpe, hlt⟩ := inv.get_of_mem he
     rw [access_h hg hlt]
     apply hi.log
-    apply hi.add _ _ (hi.log _ _ (hi.pop _ _ hP hlt))
+    apply hi.add _ _ (hi.log _ _ (hi.popB _ _ hP hlt hB))
     intro a ha
     have hget : s.h.get p = e := by
       have := H.get_eq? s.h hlt; rw [hpe] at this; exact (Option.some.inj this).symm
@@ -1516,7 +1652,7 @@ theorem access_P (ok : CfgOK cfg) (hi : HeapInv cfg P) {s : Lru} (inv : LruInv s
     omega
   · rw [access_absent inv hk]; exact hP
 
-theorem store_P (hi : HeapInv cfg P) {s s' : Lru} (inv : LruInv s) (hP : P s.h) {k v : Nat}
+theorem store_P (hi : HeapInv0 cfg P) {s s' : Lru} (inv : LruInv s) (hP : P s.h) {k v : Nat}
     (h : s.store cfg k v = .ok s') : P s'.h := by
   rw [store_h h]
   apply hi.log
@@ -1526,12 +1662,12 @@ theorem store_P (hi : HeapInv cfg P) {s s' : Lru} (inv : LruInv s) (hP : P s.h) 
   show a.lastAccess < s.clock + 1
   omega
 
-theorem evict_P (hi : HeapInv cfg P) {s s' : Lru} (hP : P s.h) (hne : s.h.data ≠ []) {k v : Nat}
+theorem evict_P (hi : HeapInv0 cfg P) {s s' : Lru} (hP : P s.h) (hne : s.h.data ≠ []) {k v : Nat}
     (h : s.evict cfg = .ok (s', k, v)) : P s'.h := by
   rw [evict_h h]
-  exact hi.log _ _ (hi.pop _ _ hP (List.length_pos_iff.2 hne))
+  exact hi.log _ _ (hi.pop0 _ hP (List.length_pos_iff.2 hne))
 
-theorem evictLoop_P (ok : CfgOK cfg) (hi : HeapInv cfg P) {sizeOf : Nat → Int} :
+theorem evictLoop_P (ok : CfgOK cfg) (hi : HeapInv0 cfg P) {sizeOf : Nat → Int} :
     ∀ (fuel : Nat) (c : Cache) (n : Int), Inv0 c → P c.store.h →
       evictLoopMin cfg sizeOf fuel c n = true ∧
       ∀ c' n', evictLoop cfg sizeOf fuel c n = .ok (c', n') → P c'.store.h := by
@@ -1570,7 +1706,7 @@ theorem evictLoop_P (ok : CfgOK cfg) (hi : HeapInv cfg P) {sizeOf : Nat → Int}
       simp only [evictLoop, hgt, if_false] at h
       cases h; exact hP
 
-theorem clearLoop_P (ok : CfgOK cfg) (hi : HeapInv cfg P) {sizeOf : Nat → Int} (hs : ∀ v, 0 ≤ sizeOf v) :
+theorem clearLoop_P (ok : CfgOK cfg) (hi : HeapInv0 cfg P) {sizeOf : Nat → Int} (hs : ∀ v, 0 ≤ sizeOf v) :
     ∀ (fuel : Nat) (c : Cache), Inv sizeOf c → P c.store.h →
       ∀ c', clearLoop cfg sizeOf fuel c = .ok c' → P c'.store.h := by
   intro fuel
@@ -1588,8 +1724,8 @@ theorem clearLoop_P (ok : CfgOK cfg) (hi : HeapInv cfg P) {sizeOf : Nat → Int}
     · simp only [clearLoop, hgt, if_false] at h
       cases h; exact hP
 
-theorem step_P (ok : CfgOK cfg) (hi : HeapInv cfg P) {sizeOf : Nat → Int} (hs : ∀ v, 0 ≤ sizeOf v)
-    {c : Cache} (inv : Inv sizeOf c) (hP : P c.store.h) (op : Op) :
+theorem step_P {B : Nat} (ok : CfgOK cfg) (hi : HeapInvB cfg P B) {sizeOf : Nat → Int} (hs : ∀ v, 0 ≤ sizeOf v)
+    {c : Cache} (inv : Inv sizeOf c) (hP : P c.store.h) (hB : c.store.h.data.length ≤ B) (op : Op) :
     stepMin cfg sizeOf c op = true ∧ P (step cfg sizeOf c op).1.store.h := by
   cases op with
   | put k v =>
@@ -1600,8 +1736,128 @@ theorem step_P (ok : CfgOK cfg) (hi : HeapInv cfg P) {sizeOf : Nat → Int} (hs 
       have hP1 : P (putReplace cfg sizeOf c k).store.h := by
         unfold putReplace
         split
-        · exact remove_P hi inv.lru hP k
+        · exact remove_P hi inv.lru hP hB k
         · exact hP
+      obtain ⟨hm, hPl⟩ := evictLoop_P ok hi.toHeapInv0 (sizeOf := sizeOf) ((putReplace cfg sizeOf c k).store.h.len + 1)
+        (putReplace cfg sizeOf c k) ((putReplace cfg sizeOf c k).size + sizeOf v) inv1.toInv0 hP1
+      obtain ⟨c2, n2, hloop, inv2, _, _, _, _, hkeys⟩ :=
+        evictLoop_spec ok (sizeOf := sizeOf) (sizeOf v) ((putReplace cfg sizeOf c k).store.h.len + 1)
+          (putReplace cfg sizeOf c k) ((putReplace cfg sizeOf c k).size + sizeOf v) inv1.toInv0
+          (by simp [H.len]) (by rw [inv1.size]) (by rw [hlim1]; omega)
+      obtain ⟨st, hst, _, _, _⟩ := store_spec ok inv2.lru v (hkeys k hk1)
+      have hput : put cfg sizeOf c k v =
+          .ok ({ c2 with store := st, size := n2, count := c2.count + 1 }, true) := by
+        rw [put_eq cfg sizeOf c k v h, hloop]
+        simp only [hst]
+      refine ⟨by simp only [stepMin, h, if_false]; exact hm, ?_⟩
+      simp only [step, hput]
+      exact store_P hi.toHeapInv0 inv2.lru (hPl c2 n2 hloop) hst
+  | get k => exact ⟨rfl, access_P ok hi inv.lru hP hB k⟩
+  | has k => exact ⟨rfl, hP⟩
+  | remove k =>
+    refine ⟨rfl, ?_⟩
+    show P (remove cfg sizeOf c k).1.store.h
+    unfold remove
+    split
+    · exact remove_P hi inv.lru hP hB k
+    · exact hP
+  | clear =>
+    refine ⟨rfl, ?_⟩
+    obtain ⟨c', hc, _, _, _, _⟩ := clear_spec (cfg := cfg) ok hs inv
+    simp only [step, hc]
+    have hc' := hc
+    unfold MdsVerif.Model.Cache.clear at hc'
+    split at hc'
+    · cases hc'
+    · rename_i c'' hl
+      split at hc'
+      · cases hc'
+      · cases hc'
+        exact clearLoop_P ok hi.toHeapInv0 hs _ c inv hP c' hl
+  | len => exact ⟨rfl, hP⟩
+  | size => exact ⟨rfl, hP⟩
+
+/-- with a heap-order invariant, the hypothesis of the conditional refinement holds on every history -/
+theorem runMin_of_heapInv (ok : CfgOK cfg) (hi : HeapInv cfg P) {sizeOf : Nat → Int} (hs : ∀ v, 0 ≤ sizeOf v)
+    (ops : List Op) : ∀ {c : Cache}, Inv sizeOf c → P c.store.h → runMin cfg sizeOf c ops = true := by
+  induction ops with
+  | nil => intro c _ _; rfl
+  | cons op ops ih =>
+    intro c inv hP
+    obtain ⟨h1, h2⟩ := step_P ok (hi.toB _) hs inv hP (Nat.le_refl _) op
+    simp only [runMin, h1, Bool.true_and]
+    exact ih (step_inv ok hs inv op).1 h2
+
+theorem length_le_sizeSum {sizeOf : Nat → Int} (h1 : ∀ v, 1 ≤ sizeOf v) (l : List Entry) :
+    (l.length : Int) ≤ sizeSum sizeOf l := by
+  induction l with
+  | nil => exact Int.le_refl 0
+  | cons e l ih => have := h1 e.value; simp only [sizeSum, List.length_cons]; omega
+
+/-- when every value has size `≥ 1` the cache never holds more than `limit` entries -/
+theorem length_le_limit {sizeOf : Nat → Int} (h1 : ∀ v, 1 ≤ sizeOf v) {c : Cache} (inv : Inv sizeOf c) :
+    (c.store.h.data.length : Int) ≤ c.limit := by
+  have := length_le_sizeSum h1 c.store.h.data
+  have := inv.le
+  have := inv.size
+  omega
+
+/-- with an invariant kept by `pop` on heaps of at most `B` elements, the hypothesis of the conditional
+refinement holds on every history of a cache that never holds more than `B` entries (sizes `≥ 1`,
+`limit ≤ B`) -/
+theorem runMin_of_heapInvB {B : Nat} (ok : CfgOK cfg) (hi : HeapInvB cfg P B) {sizeOf : Nat → Int}
+    (h1 : ∀ v, 1 ≤ sizeOf v) (ops : List Op) : ∀ {c : Cache}, Inv sizeOf c → P c.store.h → c.limit ≤ B →
+      runMin cfg sizeOf c ops = true := by
+  have hs : ∀ v, 0 ≤ sizeOf v := fun v => by have := h1 v; omega
+  induction ops with
+  | nil => intro c _ _ _; rfl
+  | cons op ops ih =>
+    intro c inv hP hB
+    have hlen : c.store.h.data.length ≤ B := by have := length_le_limit h1 inv; omega
+    obtain ⟨h1', h2⟩ := step_P ok hi hs inv hP hlen op
+    simp only [runMin, h1', Bool.true_and]
+    have hlim := (step_inv ok hs inv op).2.1
+    exact ih (step_inv ok hs inv op).1 h2 (by rw [hlim]; exact hB)
+
+/-! ### histories that never touch a present key: only the root of the heap is ever removed -/
+
+/-- the operation does not touch a present key: a `Put` that replaces nothing, a `Get`/`Remove` that misses -/
+def opMiss (c : Cache) : Op → Bool
+  | .put k _ => !has c k
+  | .get k => !has c k
+  | .remove k => !has c k
+  | _ => true
+
+def runMiss (cfg : Cfg) (sizeOf : Nat → Int) (c : Cache) : List Op → Bool
+  | [] => true
+  | op :: ops => opMiss c op && runMiss cfg sizeOf (step cfg sizeOf c op).1 ops
+
+theorem has_iff_mem {sizeOf : Nat → Int} {c : Cache} (inv : Inv sizeOf c) (k : Nat) :
+    has c k = true ↔ k ∈ c.store.h.data.map (·.key) := by
+  by_cases hk : k ∈ c.store.h.data.map (·.key)
+  · obtain ⟨e, he, rfl⟩ := List.mem_map.1 hk
+    simp [has, check_of_mem inv.lru he, hk]
+  · simp [has, check_of_not_mem inv.lru hk, hk]
+
+theorem not_mem_of_miss {sizeOf : Nat → Int} {c : Cache} (inv : Inv sizeOf c) {k : Nat}
+    (h : (!has c k) = true) : k ∉ c.store.h.data.map (·.key) := by
+  intro hk
+  rw [(has_iff_mem inv k).2 hk] at h
+  cases h
+
+theorem step_P0 (ok : CfgOK cfg) (hi : HeapInv0 cfg P) {sizeOf : Nat → Int} (hs : ∀ v, 0 ≤ sizeOf v)
+    {c : Cache} (inv : Inv sizeOf c) (hP : P c.store.h) (op : Op) (hm : opMiss c op = true) :
+    stepMin cfg sizeOf c op = true ∧ P (step cfg sizeOf c op).1.store.h := by
+  cases op with
+  | put k v =>
+    have hk : k ∉ c.store.h.data.map (·.key) := not_mem_of_miss inv hm
+    by_cases h : sizeOf v > c.limit
+    · simp only [stepMin, h, if_true, step, put_refused cfg sizeOf c k v h]
+      exact ⟨trivial, hP⟩
+    · obtain ⟨inv1, _, hk1, hlim1⟩ := putReplace_spec (cfg := cfg) ok hs inv k
+      have hr : putReplace cfg sizeOf c k = c := by
+        simp only [putReplace, check_of_not_mem inv.lru hk]
+      have hP1 : P (putReplace cfg sizeOf c k).store.h := by rw [hr]; exact hP
       obtain ⟨hm, hPl⟩ := evictLoop_P ok hi (sizeOf := sizeOf) ((putReplace cfg sizeOf c k).store.h.len + 1)
         (putReplace cfg sizeOf c k) ((putReplace cfg sizeOf c k).size + sizeOf v) inv1.toInv0 hP1
       obtain ⟨c2, n2, hloop, inv2, _, _, _, _, hkeys⟩ :=
@@ -1616,15 +1872,15 @@ theorem step_P (ok : CfgOK cfg) (hi : HeapInv cfg P) {sizeOf : Nat → Int} (hs 
       refine ⟨by simp only [stepMin, h, if_false]; exact hm, ?_⟩
       simp only [step, hput]
       exact store_P hi inv2.lru (hPl c2 n2 hloop) hst
-  | get k => exact ⟨rfl, access_P ok hi inv.lru hP k⟩
+  | get k =>
+    have hk : k ∉ c.store.h.data.map (·.key) := not_mem_of_miss inv hm
+    simp only [stepMin, step, get_spec_absent inv hk]
+    exact ⟨trivial, hP⟩
   | has k => exact ⟨rfl, hP⟩
   | remove k =>
-    refine ⟨rfl, ?_⟩
-    show P (remove cfg sizeOf c k).1.store.h
-    unfold remove
-    split
-    · exact remove_P hi inv.lru hP k
-    · exact hP
+    have hk : k ∉ c.store.h.data.map (·.key) := not_mem_of_miss inv hm
+    simp only [stepMin, step, remove_spec_absent inv hk]
+    exact ⟨trivial, hP⟩
   | clear =>
     refine ⟨rfl, ?_⟩
     obtain ⟨c', hc, _, _, _, _⟩ := clear_spec (cfg := cfg) ok hs inv
@@ -1641,17 +1897,94 @@ theorem step_P (ok : CfgOK cfg) (hi : HeapInv cfg P) {sizeOf : Nat → Int} (hs 
   | len => exact ⟨rfl, hP⟩
   | size => exact ⟨rfl, hP⟩
 
-/-- with a heap-order invariant, the hypothesis of the conditional refinement holds on every history -/
-theorem runMin_of_heapInv (ok : CfgOK cfg) (hi : HeapInv cfg P) {sizeOf : Nat → Int} (hs : ∀ v, 0 ≤ sizeOf v)
-    (ops : List Op) : ∀ {c : Cache}, Inv sizeOf c → P c.store.h → runMin cfg sizeOf c ops = true := by
+/-- with an invariant kept by `pop 0` and `add`-of-the-newest, the hypothesis of the conditional refinement
+holds on every history that never touches a present key -/
+theorem runMin_of_heapInv0 (ok : CfgOK cfg) (hi : HeapInv0 cfg P) {sizeOf : Nat → Int} (hs : ∀ v, 0 ≤ sizeOf v)
+    (ops : List Op) : ∀ {c : Cache}, Inv sizeOf c → P c.store.h → runMiss cfg sizeOf c ops = true →
+      runMin cfg sizeOf c ops = true := by
   induction ops with
-  | nil => intro c _ _; rfl
+  | nil => intro c _ _ _; rfl
   | cons op ops ih =>
-    intro c inv hP
-    obtain ⟨h1, h2⟩ := step_P ok hi hs inv hP op
+    intro c inv hP hm
+    simp only [runMiss, Bool.and_eq_true] at hm
+    obtain ⟨h1, h2⟩ := step_P0 ok hi hs inv hP op hm.1
     simp only [runMin, h1, Bool.true_and]
-    exact ih (step_inv ok hs inv op).1 h2
+    exact ih (step_inv ok hs inv op).1 h2 hm.2
 
 end heapinv
+
+/-! ### a syntactic class: every `Put` brings a key not put before, `Get`/`Remove` name keys never put -/
+
+def opFresh (seen : List Nat) : Op → Bool
+  | .put k _ => !seen.contains k
+  | .get k => !seen.contains k
+  | .remove k => !seen.contains k
+  | _ => true
+
+def seenAfter (seen : List Nat) : Op → List Nat
+  | .put k _ => k :: seen
+  | _ => seen
+
+/-- `freshKeys seen ops`: no `Put` of the history uses a key in `seen` or a key of an earlier `Put`, and
+every `Get`/`Remove` names a key that is not in `seen` and was not `Put` before it (so it misses).  In
+particular (`seen = []`): histories of `Put`s with pairwise distinct keys, `Has`, `Len`, `Size`, `Clear`. -/
+def freshKeys (seen : List Nat) : List Op → Bool
+  | [] => true
+  | op :: ops => opFresh seen op && freshKeys (seenAfter seen op) ops
+
+theorem mem_addedBy {op : Op} {o : Out} {e : Nat × Nat} (h : e ∈ addedBy op o) :
+    ∃ k v, op = .put k v ∧ e = (k, v) := by
+  unfold addedBy at h
+  split at h
+  · rename_i k v
+    exact ⟨k, v, rfl, by simpa using h⟩
+  · cases h
+
+theorem opMiss_of_fresh {sizeOf : Nat → Int} {c : Cache} (inv : Inv sizeOf c) {seen : List Nat}
+    (hseen : ∀ k ∈ c.store.h.data.map (·.key), k ∈ seen) {op : Op} (hf : opFresh seen op = true) :
+    opMiss c op = true := by
+  have key : ∀ k, (!seen.contains k) = true → (!has c k) = true := by
+    intro k hk
+    cases hh : has c k
+    · rfl
+    · have := hseen k ((has_iff_mem inv k).1 hh)
+      simp [this] at hk
+  cases op with
+  | put k v => exact key k hf
+  | get k => exact key k hf
+  | remove k => exact key k hf
+  | has k => rfl
+  | clear => rfl
+  | len => rfl
+  | size => rfl
+
+theorem seen_step {cfg : Cfg} (ok : CfgOK cfg) {sizeOf : Nat → Int} (hs : ∀ v, 0 ≤ sizeOf v) {c : Cache}
+    (inv : Inv sizeOf c) {seen : List Nat} (hseen : ∀ k ∈ c.store.h.data.map (·.key), k ∈ seen) (op : Op) :
+    ∀ k ∈ (step cfg sizeOf c op).1.store.h.data.map (·.key), k ∈ seenAfter seen op := by
+  intro k hk
+  obtain ⟨e, he, rfl⟩ := List.mem_map.1 hk
+  obtain ⟨gone, _, perm⟩ := (step_inv ok hs inv op).2.2.1
+  have h1 : kv e ∈ gone ++ ents (step cfg sizeOf c op).1 :=
+    List.mem_append_right _ (List.mem_map.2 ⟨e, he, rfl⟩)
+  rcases List.mem_append.1 (perm.mem_iff.1 h1) with h2 | h2
+  · obtain ⟨k', v', rfl, hkv⟩ := mem_addedBy h2
+    have : e.key = k' := congrArg Prod.fst hkv
+    simp [seenAfter, this]
+  · obtain ⟨e', he', hkv⟩ := List.mem_map.1 h2
+    have hk' : e'.key = e.key := congrArg Prod.fst hkv
+    have := hseen e.key (List.mem_map.2 ⟨e', he', hk'⟩)
+    cases op <;> simp [seenAfter, this]
+
+theorem runMiss_of_fresh {cfg : Cfg} (ok : CfgOK cfg) {sizeOf : Nat → Int} (hs : ∀ v, 0 ≤ sizeOf v)
+    (ops : List Op) : ∀ {c : Cache} {seen : List Nat}, Inv sizeOf c →
+      (∀ k ∈ c.store.h.data.map (·.key), k ∈ seen) → freshKeys seen ops = true →
+      runMiss cfg sizeOf c ops = true := by
+  induction ops with
+  | nil => intro c seen _ _ _; rfl
+  | cons op ops ih =>
+    intro c seen inv hseen hf
+    simp only [freshKeys, Bool.and_eq_true] at hf
+    simp only [runMiss, opMiss_of_fresh inv hseen hf.1, Bool.true_and]
+    exact ih (step_inv ok hs inv op).1 (seen_step ok hs inv hseen op) hf.2
 
 end MdsVerif.Proofs.Cache
